@@ -215,15 +215,16 @@ def replay(path):
         return 1
     e = obj["event"]
     if e["rule"] == "proof":
-        print("whole-proof event; stored verdict:", obj["clause"])
-        write_events(wd / "ev.ndjson", [e])
+        write_events(wd / "vec.ndjson", [{"kind": e["mut"], "cmds": e["cmds"]}])
+        run_driver("c18", ["proofs", wd / "vec.ndjson", wd / "ev.ndjson"])
     else:
         vec = {"rule": e["rule"], "mut": e["mut"], "prems": e["prems"], "cl": e["cl"], "sizes": e["sizes"], "coeffs": e["coeffs"],
                "inst": e["inst"], "ctx": e["ctx"]}
         write_events(wd / "vec.ndjson", [vec])
         run_driver("c18", ["replay", wd / "vec.ndjson", wd / "ev.ndjson"])
     evs = read_events(wd / "ev.ndjson")
-    v = validate_trace(TSPEC, wd / "ev.ndjson", wd=wd / "tv", nchunks=1)
+    write_events(wd / "ev_slim.ndjson", [_slim(x) for x in evs])
+    v = validate_trace(TSPEC, wd / "ev_slim.ndjson", wd=wd / "tv", nchunks=1)
     print("outcome:", evs[0]["outcome"], "events:", v["consumed"], "fails:", v["fails"])
     if v["fails"]:
         print("VIOLATION property=C18 replay=%s" % path)
